@@ -35,6 +35,8 @@ def gen_cases(tier, seed):
             if c['tmax'] != 'inf':
                 span = int(c['tmax'] - c['tmin'])
                 c['tmax'] = c['tmin'] + max(1, span)
+        if sim in ('fast_nonMarkov_SIR', 'fast_nonMarkov_SIS') and c['rule']['kind'] in ('exp', 'unif') and r.random() < 0.35:
+            c['rule'] = dict(c['rule'], zero_some=True)       # some nodes are infected and recover at the same instant: two changes at one time
         if sim == 'Gillespie_simple_contagion' and r.random() < 0.25:
             ks = len(c['spec']['statuses'])
             c['return_idx'] = sorted(r.sample(range(ks), r.randint(1, ks)))
@@ -170,7 +172,7 @@ def run_case(case):
     else:
         legal = call_f.moves
     nchanges = 0
-    ties_possible = sim in ('fast_nonMarkov_SIR', 'fast_nonMarkov_SIS') and case['rule']['kind'] in ('const', 'lattice')
+    ties_possible = sim in ('fast_nonMarkov_SIR', 'fast_nonMarkov_SIS') and (case['rule']['kind'] in ('const', 'lattice') or case['rule'].get('zero_some'))
     for u in nodes:
         ts, ss = hist[u]
         bump(res, 'histories_checked')
@@ -217,7 +219,9 @@ def run_case(case):
             break
     try:
         d0 = full.get_statuses()
-        if any(d0[u] != hist[u][1][0] for u in nodes):
+        # default time = the initial time; "the status of the latest change at or before it" (a node of zero infectious period has two
+        # changes at tmin)
+        if any(d0[u] != status_at(hist[u][0], hist[u][1], hist[u][0][0]) for u in nodes):
             viol(res, '%s|get_statuses_default_time' % sim, {})
     except Exception as e:
         viol(res, '%s|get_statuses|exception:%s' % (sim, type(e).__name__), {'err': repr(e)})
